@@ -54,7 +54,7 @@ def point_to_circle(point, center, radius, normal, epsilon=1e-6):
     diff_in_plane = diff - dist_to_plane * normal
     sqr_len = diff_in_plane.dot(diff_in_plane)
 
-    if sqr_len >= epsilon:
+    if sqr_len >= epsilon * epsilon:
         closest_point_circle = (
             center + (radius / math.sqrt(sqr_len)) * diff_in_plane)
         dist = np.linalg.norm(point - closest_point_circle)
